@@ -67,7 +67,7 @@ def s12(chk: Check, proj: Project, w) -> None:
     chk.analysed(f"{sm.name}:SlotRef.__str__", fkey(sm2, rf))
     # is the SlotRef's context the object the override layer is pushed on?  used_ctx may be that same context (django mode)
     refs = [c for c in calls(rf) if last_attr(c.func) == "SlotRef" and len(c.args) >= 2]
-    ups = [it.context_expr for w_ in ast.walk(rf) if isinstance(w_, ast.With) for it in w_.items if isinstance(it.context_expr, ast.Call) and isinstance(it.context_expr.func, ast.Attribute) and it.context_expr.func.attr == "update" and it.context_expr.args and norm(it.context_expr.args[0]) == "extra_context"]
+    ups = [it.context_expr for w_ in ast.walk(rf) if isinstance(w_, ast.With) for it in w_.items if isinstance(it.context_expr, ast.Call) and isinstance(it.context_expr.func, ast.Attribute) and it.context_expr.func.attr == "update" and it.context_expr.args and isinstance(it.context_expr.args[0], ast.Name) and any(isinstance(st_, ast.Assign) and isinstance(st_.targets[0], ast.Subscript) and norm(st_.targets[0].value) == it.context_expr.args[0].id and norm(st_.targets[0].slice) == "_COMPONENT_CONTEXT_KEY" for st_ in ast.walk(rf))]
     if init is None or st_ is None or not refs or not ups:
         chk.undecided("S12", "slots:SlotRef:renders-under-own-component-key", sm.loc(sr), "SlotRef.__init__ / __str__ / its construction / the override layer not found")
         return
